@@ -57,6 +57,9 @@ func allCalls(p *core.Prog, fns []*ssa.Function) []site {
 
 // reachableFuncs returns fn, its literals, and every module function
 // statically callable from them (transitively), literals included.
+// deepCalls widens reachableFuncs with the VTA call graph (thorough tier).
+var deepCalls bool
+
 func reachableFuncs(p *core.Prog, roots ...*ssa.Function) []*ssa.Function {
 	seen := map[*ssa.Function]bool{}
 	var order []*ssa.Function
